@@ -1,10 +1,10 @@
 #!/bin/bash
 # Development aid: confirms a seeded change in a scratch worktree: (1) it applies, (2) the 174 pinned tests
 # pass with it, (3) its demonstration fails with it and (4) passes without it.
-# usage: confirm_seed.sh <seed-dir containing patch.diff and demo.rs|demo_unit.rs> [extra RUSTFLAGS]
+# usage: [WT=/tmp/wt-confirm] confirm_seed.sh <seed-dir containing patch.diff and demo.rs> [extra RUSTFLAGS]
 set -u
 D="$1"; FLAGS="${2:-}"
-WT=/tmp/wt-confirm
+WT=${WT:-/tmp/wt-confirm}
 if [ ! -d "$WT" ]; then git -C /repo worktree add -q --detach "$WT" HEAD; fi
 git -C "$WT" checkout -q --detach "$(git -C /repo rev-parse HEAD)" 2>/dev/null
 git -C "$WT" checkout -q -- . ; git -C "$WT" clean -fdq -- src tests
@@ -15,8 +15,8 @@ suite=$(cargo nextest run --workspace --no-fail-fast --offline 2>&1 | grep -E "S
 mkdir -p tests
 if [ -f "$D/demo.rs" ]; then cp "$D/demo.rs" tests/demo.rs; cmd="cargo test --offline --features image --test demo";
 else echo "RESULT $D no-demo"; exit 1; fi
-with=$(RUSTFLAGS="$FLAGS" $cmd 2>&1 | grep -E "^test result" | tail -1)
+with=$(RUSTFLAGS="$FLAGS" $cmd 2>&1 | grep -E "^test result|error(\[|:)" | tail -1)
 git checkout -q -- src
-without=$(RUSTFLAGS="$FLAGS" $cmd 2>&1 | grep -E "^test result" | tail -1)
+without=$(RUSTFLAGS="$FLAGS" $cmd 2>&1 | grep -E "^test result|error(\[|:)" | tail -1)
 rm -f tests/demo.rs
 echo "RESULT $D applies=yes suite=[$suite] with_change=[$with] clean=[$without]"
